@@ -10,6 +10,7 @@ import (
 	"bytes"
 	"fmt"
 	"io"
+	"math"
 	"os"
 	"strings"
 
@@ -56,6 +57,8 @@ func StartREPL(preloadSrc string, in io.Reader, out io.Writer) {
 
 func newScanner(in io.Reader) *_Scanner {
 	scanner := bufio.NewScanner(in)
+	// NOTE: lines may be longer than bufio.MaxScanTokenSize (otherwise Scan fails and the REPL ends silently)
+	scanner.Buffer(make([]byte, 0, bufio.MaxScanTokenSize), math.MaxInt)
 	return &_Scanner{
 		mode:    newScannerState("single"),
 		scanner: scanner,
